@@ -1,6 +1,6 @@
 /* C18 harness: C API setters extracted from src/opnmidi.cpp on every run. */
 #include "api_contracts.h"
-unsigned g_error_texts, g_partial_resets, g_lfo_commits; struct OPN2_MIDIPlayer g_device; int g_locked;
+unsigned g_error_texts, g_partial_resets, g_lfo_commits; apply_result g_apply; struct OPN2_MIDIPlayer g_device; int g_locked;
 static void setVolumeScaleModel(OPNMIDI_VolumeModels volumeModel);
 static OPNMIDI_VolumeModels getVolumeScaleModel(void);
 static void setDeviceId(uint8_t id);
@@ -39,3 +39,4 @@ void h_pair_volumeModel(void) { PAIR_SETUP g_locked = 0; __CPROVER_assume(g_synt
     REACH(in_arg == OPNMIDI_VolumeModel_AUTO && r == OPNMIDI_VolumeModel_DMX, "auto dmx"); }
 void h_pair_numChips(void) { PAIR_SETUP int r = opn2_setNumChips(dev, in_arg); int g = opn2_getNumChips(dev);
     if(r == 0) __CPROVER_assert(g == in_arg, "PAIR chip count: getter returns the accepted value"); REACH(r == 0 && g == 100, "hundred"); }
+void h_applySetup_prefix(void) { g_play.m_synth = &g_synth; g_apply.reached = false; applySetup_prefix(); REACH(g_play.m_setup.VolumeModel == OPNMIDI_VolumeModel_AUTO, "auto"); REACH(g_play.m_setup.chipType < 0 && g_apply.chipType == 1, "bank chip type"); REACH(g_play.m_setup.LogarithmicVolumes != 0, "log volumes"); }
